@@ -42,15 +42,24 @@ impl Complex::<f64> {
     /// Return the inverse sin of a complex number z ( asin(z) )
     #[inline]
     pub fn asin(&self) -> Complex<f64> {
-        let squared = self.clone() * self.clone();
-        - I * ((Cmplx::one() - squared).sqrt() + I * self.clone()).ln()
+        - I * self.sqrt_plus_iz().ln()
+    }
+
+    // sqrt( 1 - z^2 ) + i z, the argument of the logarithm in asin and acos. The product of this sum and
+    // sqrt( 1 - z^2 ) - i z is 1, so whichever of the two is the smaller in modulus is a difference of nearly
+    // equal terms ( for |z| = 1000 it keeps 10 digits ) and is formed as the reciprocal of the other
+    #[inline]
+    fn sqrt_plus_iz(&self) -> Complex<f64> {
+        let root = ( Cmplx::one() - self.clone() * self.clone() ).sqrt();
+        let iz = I * self.clone();
+        let ( plus, minus ) = ( root + iz, root - iz );
+        if plus.abs() >= minus.abs() { plus } else { Cmplx::one() / minus }
     }
 
     /// Return the inverse cos of a complex number z ( acos(z) )
     #[inline]
     pub fn acos(&self) -> Complex<f64> {
-        let squared = self.clone() * self.clone();
-        I * ((Cmplx::one() - squared).sqrt() + I * self.clone()).ln() + PI_2
+        I * self.sqrt_plus_iz().ln() + PI_2
     }
 
     /// Return the inverse tan of a complex number z ( atan(z) )
